@@ -26,6 +26,7 @@ type Stats struct {
 	Errors              int
 	Time                time.Duration
 	MaxQuery            time.Duration
+	Fallbacks           int
 }
 
 // Solver drives one long-lived SMT-LIB2 solver process over a pipe.
@@ -44,6 +45,8 @@ type Solver struct {
 	seq     int
 	dead    bool
 	defaultTimeout int
+	QuickMs int
+	PreferTactic bool // go straight to the bit-blasting tactic (assertion queries)
 	LastErr string
 }
 
@@ -300,9 +303,6 @@ func (s *Solver) CheckModel(vars []*Term, timeoutMs int, assuming ...*Term) (Res
 		}
 		refs = append(refs, s.ref(a)) // named at the current level, outside the temporary scope
 	}
-	if timeoutMs > 0 && s.Name != "cvc5" {
-		s.raw("(set-option :timeout " + strconv.Itoa(timeoutMs) + ")\n")
-	}
 	scoped := len(refs) > 0
 	if scoped {
 		s.raw("(push 1)\n")
@@ -310,15 +310,43 @@ func (s *Solver) CheckModel(vars []*Term, timeoutMs int, assuming ...*Term) (Res
 			s.raw("(assert " + r + ")\n")
 		}
 	}
-	s.raw("(check-sat)\n")
+	// Hybrid strategy (z3): the incremental core answers the many small feasibility queries in
+	// well under a millisecond but can take tens of seconds on order-heavy bit-vector queries
+	// that bit-blasting decides at once. So: incremental check under a short timeout first, then
+	// the same assertion stack through the bit-blasting tactic with the full timeout.
 	t0 := time.Now()
-	lines := s.sync()
+	var r Result
+	if s.Name == "cvc5" {
+		s.raw("(check-sat)\n")
+		r = s.classify(s.sync())
+	} else {
+		full := s.defaultTimeout
+		if timeoutMs > 0 {
+			full = timeoutMs
+		}
+		quick := s.QuickMs
+		if quick <= 0 {
+			quick = 250
+		}
+		if quick > full {
+			quick = full
+		}
+		r = Unknown
+		if !s.PreferTactic {
+			s.raw("(set-option :timeout " + strconv.Itoa(quick) + ")\n(check-sat)\n")
+			r = s.classify(s.sync())
+		}
+		if r == Unknown && !s.dead {
+			s.Stats.Fallbacks++
+			s.raw("(set-option :timeout " + strconv.Itoa(full) + ")\n(check-sat-using (then simplify solve-eqs bit-blast sat))\n")
+			r = s.classify(s.sync())
+		}
+	}
 	d := time.Since(t0)
 	s.Stats.Time += d
 	if d > s.Stats.MaxQuery {
 		s.Stats.MaxQuery = d
 	}
-	r := s.classify(lines)
 	var model map[string]uint64
 	switch r {
 	case Sat:
@@ -340,9 +368,6 @@ func (s *Solver) CheckModel(vars []*Term, timeoutMs int, assuming ...*Term) (Res
 	}
 	if scoped {
 		s.raw("(pop 1)\n")
-	}
-	if timeoutMs > 0 && s.Name != "cvc5" {
-		s.raw("(set-option :timeout " + strconv.Itoa(s.defaultTimeout) + ")\n")
 	}
 	return r, model
 }
